@@ -255,7 +255,11 @@ func equal(lhsV, rhsV reflect.Value) bool {
 		if lhsKind == rhsKind {
 			return toFloat64(lhsV) == toFloat64(rhsV)
 		}
-		// mixed types: use string representation for compatibility
+		if !lhsIsFloat || !rhsIsFloat {
+			// an integer and a float are equal when they denote the same number
+			return toFloat64(lhsV) == toFloat64(rhsV)
+		}
+		// mixed float types: use string representation for compatibility
 		// (e.g. float32(1.1) should equal float64(1.1))
 		return numToString(lhsV) == numToString(rhsV)
 	}
